@@ -246,6 +246,7 @@ def fingerprint(m, x, deep=True, cfg=None):
         'rng': rng_hash(),
         'reqgrad': hj([(k, p.requires_grad) for k, p in m.named_parameters()]),
         'sampling': hj(sampling(m)),
+        'sampling_v': sorted({'hard=%s gumbel=%s disable_sampling=%s temperature=%s fn=%s' % t[1:] for t in sampling(m)}),
     }
     fp['polluted'] = polluted(m)
     if deep:
@@ -302,6 +303,11 @@ def apply_op(m, x, op, method):
             ps = [p for p in m.parameters() if p.requires_grad]
             for p in ps:
                 p.grad = None
+            # a model frozen with disable_sampling=True keeps coefficients that still hang on the (freed) autograd graph
+            # of the step that sampled them: detach them (same values), as user code has to do before it can go on
+            for mod in m.modules():
+                if getattr(mod, 'disable_sampling', False) and isinstance(getattr(mod, 'theta_alpha', None), torch.Tensor) and mod.theta_alpha.grad_fn is not None:
+                    mod.theta_alpha = mod.theta_alpha.detach()
             y = m(x)
             loss = (y ** 2).mean()
             try:
